@@ -28,8 +28,14 @@ AtomSet == IF IOEnv.ATOMS = "core" THEN CoreAtoms ELSE Atoms
 \* included), every Unicode White_Space character and the code points next to them, a few multi-byte letters; in every
 \* lexical context a character can follow or precede (nothing, identifier, `$`, terminal identifier, open attribute,
 \* comment, colon, underscore, keyword, bracket)
+\* one or more representatives of every Unicode general category and of the derived properties Rust's char predicates use
+\* (is_alphabetic, is_numeric, is_alphanumeric, is_uppercase, is_lowercase, is_control): none of them is an ASCII letter,
+\* digit or underscore, so none may become part of an identifier, and only White_Space may be skipped
+UniClasses == { 170, 178, 179, 181, 185, 186, 188, 189, 192, 223, 255, 453, 688, 768, 769, 837, 1072, 1488, 1632, 1635, 2307, 2406, 2407, 3664, 4969,
+                8255, 8256, 8276, 8304, 8320, 8453, 8544, 8551, 8560, 9312, 9450, 12295, 12353, 19968, 20013, 44032, 65075, 65101, 65284, 65283, 65296, 65297,
+                65306, 65313, 65343, 65345, 65371, 66560, 119808, 120782, 127232, 131072, 57344, 173, 1564, 8205, 8206, 8232, 917505, 65532, 65533 }
 SweepChars == { <<c>> : c \in (0..127) \cup WS \cup {128, 132, 134, 159, 161, 173, 5759, 5761, 6158, 8191, 8203, 8204, 8231, 8234, 8238, 8240,
-                                                      8286, 8288, 12287, 12289, 65279, 233, 8364, 128512, 1114111} }
+                                                      8286, 8288, 12287, 12289, 65279, 233, 8364, 128512, 1114111} \cup UniClasses }
 SweepContexts == { <<>>, <<97>>, <<DOLLAR>>, <<DOLLAR, 65>>, <<POUND, LBRACK>>, <<POUND, LBRACK, 97>>, <<SLASH, SLASH>>, <<SLASH>>, <<COLON>>,
                    W_us, W_start, <<40>>, <<NLc>> }
 AtomsAt(j) == IF IOEnv.ATOMS = "sweep" THEN (IF j = 1 THEN SweepChars ELSE SweepContexts) ELSE AtomSet
